@@ -473,6 +473,14 @@ class Msg:
 
     def touch(self):
         self.version += 1
+        slot = getattr(self, 'slot', None)
+        if slot is not None:
+            # element returned by `repeated.add()`: protobuf hands out a reference into the list, so a later mutation
+            # (e.g. metadata_util._assign_value after container.metadata.add) writes through to the list slot
+            lst, idx = slot
+            lst.arr = z3.Store(lst.arr, idx, self.pack())
+            lst.stored = [(m_, (m_.version if m_ is self else v_)) for m_, v_ in lst.stored]
+            lst.touch()
         p = self.parent
         if p is not None:
             pm, fname = p
